@@ -1371,7 +1371,7 @@ func runC08(c *core.Ctx) {
 				continue
 			}
 			alpha := falpha
-			if target == "reader" {
+			if target == "reader" && (v == 2 || !c.Quick()) {
 				alpha = append(append([]string(nil), falpha...), "g")
 			}
 			exhaustive(c08Case{File: p2, Target: target}, alpha, length,
@@ -1379,7 +1379,7 @@ func runC08(c *core.Ctx) {
 		}
 		// multiPages: the pages of a column over both row groups
 		for _, col := range []int{0, 2, 4} {
-			if c.Quick() && (v == 1 || col == 0) {
+			if c.Quick() && (v == 1 || col != 4) {
 				continue
 			}
 			palpha := []string{"r"}
